@@ -79,6 +79,8 @@ public:
    }
    virtual void FlushOutput() {}
    virtual void Shutdown() {_shutdown = true; _sel.Reset();}
+   virtual uint64 GetOutputStallLimit() const {return _stallLimit;}   // (as a TCP socket has one: a session whose pending output has not moved for that long is dropped by the server)
+   uint64 _stallLimit = MUSCLE_TIME_NEVER;
    virtual const muscle::ConstSocketRef & GetReadSelectSocket()  const {return _sel() ? _sel : muscle::GetNullSocket();}
    virtual const muscle::ConstSocketRef & GetWriteSelectSocket() const {return _sel() ? _sel : muscle::GetNullSocket();}
    SimStream * _in, * _out;
